@@ -506,7 +506,8 @@ def residuals(vec1: ndarray, vec2: ndarray, angular: ndarray) -> ndarray:
 
 def vecWrapAngleNeg(angles: ndarray) -> ndarray:
     r"""Force angle into range of :math:`(-\pi, \pi]`."""
-    return (angles + const.PI) % const.TWOPI - const.PI
+    # [NOTE]: `(angles + pi) % 2pi - pi` maps odd multiples of pi to -pi, i.e. into [-pi, pi)
+    return const.PI - (const.PI - angles) % const.TWOPI
 
 
 def vecWrapAngle2Pi(angles: ndarray) -> ndarray:
